@@ -20,6 +20,7 @@
 #include <stdio.h>
 #include <stdlib.h>
 #include <string.h>
+#include <grp.h>
 #include <sys/mman.h>
 #include <sys/stat.h>
 #include <sys/wait.h>
@@ -576,6 +577,17 @@ int main(int argc, char **argv) {
     } else if (!strcmp(c, "setoff")) {
       asm_set_offset(x->al, atoi(tok[2]));
       oputs("O\n");
+    } else if (!strcmp(c, "dropuid")) {
+      /* dropuid <id> <uid>: the rest of the script runs as another (unprivileged) user: files are then read by someone who is
+       * not their owner and has no capabilities (the checks themselves run as root, for whom no file is unreadable) */
+      uid_t u = (uid_t)atol(tok[2]);
+      int r = 0;
+      if (geteuid() != u) { /* (an earlier case of the same process may have dropped already) */
+        r = setgroups(0, NULL);
+        r |= setresgid(u, u, u);
+        r |= setresuid(u, u, u);
+      }
+      oprintf("U %d %d\n", r, (int)geteuid());
     } else if (!strcmp(c, "getcode")) {
       /* the getters: asm_get_code, asm_get_offset and the deprecated asm_get_buffer - they are pure (nothing may be written) */
       uint8_t *b1 = asm_get_code(x->al);
